@@ -201,7 +201,7 @@ func (c *c17) deliver(ch *kernel.Chooser) string {
 	variant := "honest"
 	var cookies []*http.Cookie // nil: use the browser's jar
 	useJar := true
-	x := ch.Int(21)
+	x := ch.Int(22)
 	junk := func(name, plain string) *http.Cookie {
 		switch ch.Int(3) {
 		case 0:
@@ -233,6 +233,13 @@ func (c *c17) deliver(ch *kernel.Chooser) string {
 		}
 		u.RawQuery = q.Encode()
 		cbURL = u.String()
+	case x == 21:
+		// the genuine state cookie and no pkce cookie at all (dropped by the browser, or the login was started where PKCE
+		// is not used): with PKCE enabled there is then no verifier this callback could be bound to
+		variant, useJar = "state-cookie-only", false
+		if a.stateCk != nil {
+			cookies = append(cookies, a.stateCk)
+		}
 	case x == 20:
 		// the genuine state cookie, and a pkce cookie that does not verify
 		variant, useJar = "junk-pkce-cookie", false
